@@ -120,7 +120,7 @@ class ExprMixin:
                 return Val(Ite(d, la.t, lb.t), la.sort)
             kind = la.kind if la.kind == lb.kind else None
             cls = la.cls if la.cls is lb.cls else None
-            origin = la.origin if la.origin == lb.origin else None
+            origin = la.origin if la.origin == lb.origin else (la.origin if lb.fresh == TRUE else (lb.origin if la.fresh == TRUE else None))
             return Val(Ite(d, asV(la), asV(lb)), kind=kind, cls=cls, fresh=Ite(d, la.fresh, lb.fresh), origin=origin)
         try:
             env = {}
@@ -567,6 +567,22 @@ class ExprMixin:
         st.assume(f"(k_set {r.t})")
         st.assume(f"(forall (({x} V)) (! (= (seq_has_pyeq (sitems {r.t}) {x} 0) {rhs}) :pattern ((seq_has_pyeq (sitems {r.t}) {x} 0))))")
         # non-emptiness witness facts (what truthiness of the result needs)
+        if isinstance(op, ast.BitAnd):
+            consts, other = None, None
+            for u, w in ((a, lb), (b, la)):
+                if isinstance(u, PyC) and isinstance(u.obj, (set, frozenset)):
+                    consts, other = sorted(u.obj, key=repr), w
+            if consts is not None:
+                src = self.set_src.get(other.t, other)
+                mem = []
+                for cst in consts:
+                    ct = const_term(cst, self.ctab)
+                    if src.kind == "dict" and isinstance(cst, str):
+                        mem.append(f"(dhas {asV(src)} {smt.sstr(cst)})")
+                    else:
+                        mem.append(f"(py_contains {asV(src)} {ct})")
+                st.assume(Eq(f"(> (seq.len (sitems {r.t})) 0)", Or(*mem)))
+                self.trusted_used.add("set intersection with a constant set is non-empty iff one of the constants is a member of the other operand (library axiom)")
         if isinstance(op, ast.Sub):
             # provenance: set(A) - set(B) is non-empty iff some element of A is not `in` B
             sa = self.set_src.get(la.t, la)
